@@ -51,6 +51,9 @@ DIRECTED = [
     "def f(p):\n    import os.path\n    return p\n",
     "def f(p):\n    import os.path\n    return os.path.basename(p)\n",
     "def f(p):\n    import xml.dom as d, os.path\n    from os import path as q, sep\n    return (d, q)\n",
+    # `import a.b.c` binds a, however many components follow
+    "def f(p):\n    import xml.etree.ElementTree\n    return xml.etree.ElementTree.Element(p).tag\n",
+    "def f(p):\n    import xml.etree.ElementTree, os.path as q, email.mime.text\n    return (xml, email, q)\n",
     "def f(xs):\n    return sorted(xs, key=lambda v, s=GLOB1: -v * s)\n",
     "def f(xs):\n    g = lambda v, s=GLOB2: v\n    return [q for q in xs if q > GLOB1]\n",
     "def f(a):\n    def inner(b=GLOB1, *, c=GLOB2):\n        return b\n    class K(Boom if a else Exception):\n        pass\n    return inner\n",
